@@ -1,6 +1,6 @@
 (* C05 — try / trypipe stop on failure and honour `||`.
    Only theorem statements here; proofs live in Proof/RunModeStrict.v. *)
-From Murex Require Import Base.Outcome Base.Bytes Model.RunMode Check.C05 Proof.RunMode Proof.RunModeStrict.
+From Murex Require Import Base.Outcome Base.Bytes Model.RunMode Check.C05 Proof.RunMode Proof.RunModeStrict Proof.RunModeErr.
 
 (* For EVERY program with non-negative exit numbers, runModeTry on the processes
    the parser produces computes the stdout and exit number of the reference
@@ -50,6 +50,69 @@ Theorem C05_try_vs_trypipe : forall a b c,
     {| o_out := []; o_exit := c_exit a |}.
 Proof. exact try_vs_trypipe_pipeline_head. Qed.
 Print Assumptions C05_try_vs_trypipe.
+
+(* ---- tryerr / trypipeerr ------------------------------------------- *)
+
+(* What the code does, for EVERY program: runModeTry / runModeTryPipe with
+   checkTryErr compute the reference interpreter in which "more stderr than
+   stdout" is read on the CUMULATIVE byte counts of the shared streams. *)
+Theorem C05_err_modes_refine_cumulative : forall m prog,
+  exits_nonneg prog = true ->
+  match sched_of m with STryErr | STryPipeErr => True | _ => False end ->
+  run_program m prog = spec_cum_of m prog.
+Proof. exact err_modes_refine_cum. Qed.
+Print Assumptions C05_err_modes_refine_cumulative.
+
+(* The full statement for the *err modes - the documented per-process rule ... *)
+Definition C05_err_modes_follow_documented_rule : Prop :=
+  forall m prog, exits_nonneg prog = true ->
+    match sched_of m with STryErr | STryPipeErr => True | _ => False end ->
+    run_program m prog = spec_of m prog.
+
+(* ... is false on the pinned tree (known finding 1): `tryerr { out ooooooo; s0 t;
+   out o }` goes on after s0, `tryerr { s0 tttt || out o; out p }` stops after out o. *)
+Theorem C05_err_modes_documented_rule_refuted : ~ C05_err_modes_follow_documented_rule.
+Proof.
+  intro H. destruct doc_rule_refuted as [R _]. apply R. apply H; [reflexivity|exact I].
+Qed.
+Print Assumptions C05_err_modes_documented_rule_refuted.
+
+(* Proved fragments of it: programs that write nothing to stderr ... *)
+Theorem C05_err_modes_follow_documented_rule_partial : forall m prog,
+  exits_nonneg prog = true -> no_stderr prog = true ->
+  match sched_of m with STryErr | STryPipeErr => True | _ => False end ->
+  run_program m prog = spec_of m prog.
+Proof. exact err_modes_meet_doc_no_stderr. Qed.
+Print Assumptions C05_err_modes_follow_documented_rule_partial.
+
+(* ... and exactly the programs on which the two readings coincide. *)
+Theorem C05_err_modes_follow_documented_rule_partial_exact : forall m prog,
+  exits_nonneg prog = true ->
+  match sched_of m with STryErr | STryPipeErr => True | _ => False end ->
+  obs_eqb (spec_cum_of m prog) (spec_of m prog) = true ->
+  run_program m prog = spec_of m prog.
+Proof. exact err_modes_meet_doc_when_readings_agree. Qed.
+Print Assumptions C05_err_modes_follow_documented_rule_partial_exact.
+
+(* block / function / module forms of the *err modes select the same scheduler *)
+Theorem C05_tryerr_eq_function_runmode : forall prog,
+  run_program RmFunctionTryErr prog = run_program RmBlockTryErr prog /\
+  run_program RmModuleTryErr prog = run_program RmBlockTryErr prog /\
+  run_program RmFunctionTryPipeErr prog = run_program RmBlockTryPipeErr prog /\
+  run_program RmModuleTryPipeErr prog = run_program RmBlockTryPipeErr prog.
+Proof. intro prog. repeat split; apply same_scheduler_same_result; reflexivity. Qed.
+Print Assumptions C05_tryerr_eq_function_runmode.
+
+(* the classifier of the check marks exactly the cumulative behaviour *)
+Example C05_err_nonvacuous :
+  exits_nonneg witness_err_masked = true /\
+  spec_ok {| k_mode := RmBlockTryErr; k_prog := witness_err_masked; k_flags := [];
+             k_obs := run_program RmBlockTryErr witness_err_masked |} = false /\
+  classify {| k_mode := RmBlockTryErr; k_prog := witness_err_masked; k_flags := [];
+              k_obs := run_program RmBlockTryErr witness_err_masked |} = 1%N /\
+  classify {| k_mode := RmBlockTryErr; k_prog := witness_err_masked; k_flags := [];
+              k_obs := {| o_out := []; o_exit := 3 |} |} = 0%N.
+Proof. repeat split; reflexivity. Qed.
 
 (* Before the repairs the schedulers skipped exactly one `||` alternative after
    a success: `true || out a || out b` printed b under try and trypipe. *)
